@@ -191,7 +191,7 @@ fn c19_table_options_neutral() {
     }
 }
 
-// @harness props=C03,C12 tier=quick cap=1500
+// @harness props=C03,C12 tier=thorough cap=5400
 // two squitters of ONE aircraft into an empty table - a DF17 then a DF18 (CF symbolic), both of a type
 // code the decoder does not interpret - with -U/-R symbolic: exactly one row, stored under and carrying
 // the 24-bit address (no second row for a differently qualified key)
